@@ -1,5 +1,88 @@
 package props
 
-import "verif/checker/core"
+import (
+	"fmt"
+	"go/ast"
+	"strings"
 
-func tmplC09(c *core.Check) {}
+	"verif/checker/core"
+	"verif/checker/rules"
+)
+
+// tmplC09: the keep_unknown_fields clauses on abstract renderings.
+func tmplC09(c *core.Check) {
+	st := tmplEngine(c)
+	if st == nil {
+		return
+	}
+	g := "generator/golang"
+	sub := []string{"FieldGetOrSet", "FieldIsSet", "StructLikeRead", "StructLikeReadField", "StructLikeWrite", "StructLikeWriteField", "StructLikeDeepEqual", "StructLikeDeepEqualField"}
+	units := []unit{
+		{Set: "default", Def: "StructLikeRead", DotRel: g, DotType: "StructLike", Lists: []int{0, 1, 2}, Cats: []string{"I32", "Struct"}, Fixed: map[string]int{"Features.ApacheAdaptor": 0}},
+		{Set: "default", Def: "StructLikeWrite", DotRel: g, DotType: "StructLike", Lists: []int{0, 1, 2}, Cats: []string{"I32", "Struct"}, Fixed: map[string]int{"Features.ApacheAdaptor": 0}},
+		{Set: "default", Def: "StructLike", Name: "StructLike(shell)", DotRel: g, DotType: "StructLike", Stub: sub, Lists: []int{0, 1}, Cats: []string{"I32"},
+			Fixed: map[string]int{"Features.KeepUnknownFields": 1, "Features.WithFieldMask": 0, "Features.GenerateTypeMeta": 0, "Features.JSONStringer": 0, "Features.ReserveComments": 0}},
+	}
+	agg := newAggregate()
+	runUnits(c, st, units, func(r *rendered) {
+		k := r.U.key()
+		if r.R.Err != nil || r.ParseErr != nil {
+			agg.check("renders", k)
+			agg.fail("renders", k, fmt.Sprintf("under [%s]: %v %v", r.R.Valuation, r.R.Err, r.ParseErr))
+			return
+		}
+		switch r.U.Def {
+		case "StructLikeRead":
+			sub := newAggregate()
+			c02read(sub, r)
+			relay(sub, agg, "unknown-read-arm", k, []string{"read-typestate", "read-guard"})
+		case "StructLikeWrite":
+			sub := newAggregate()
+			c02write(sub, r)
+			relay(sub, agg, "unknown-write-position", k, []string{"write-typestate"})
+		case "StructLike":
+			agg.check("unknown-carrying", k)
+			fd := findFunc(r.P.File, "CarryingUnknownFields")
+			if fd == nil {
+				agg.fail("unknown-carrying", k, "under ["+r.R.Valuation+"]: keep_unknown_fields is on but CarryingUnknownFields is not generated")
+				return
+			}
+			okBody := false
+			if len(fd.Body.List) == 1 {
+				if rs, ok := fd.Body.List[0].(*ast.ReturnStmt); ok && len(rs.Results) == 1 {
+					t := rules.ExprText(rs.Results[0])
+					okBody = strings.Contains(t, "len(p._unknownFields) > 0") || strings.Contains(t, "len() > 0") && strings.Contains(r.R.Text, "len(p._unknownFields) > 0")
+				}
+			}
+			if !okBody {
+				agg.fail("unknown-carrying", k, "under ["+r.R.Valuation+"]: CarryingUnknownFields does not report len(p._unknownFields) > 0")
+			}
+			// the struct declares the storage the Read/Write arms use
+			if !strings.Contains(r.R.Text, "_unknownFields unknown.Fields") {
+				agg.fail("unknown-carrying", k, "under ["+r.R.Valuation+"]: the struct has no _unknownFields unknown.Fields member")
+			}
+		}
+	})
+	agg.flush(c, map[string]string{
+		"unknown-read-arm":       "the unknown-id arm appends to _unknownFields iff keep_unknown_fields (else skips); exactly one consumption per header",
+		"unknown-write-position": "_unknownFields.Write sits after all known field writers and before WriteFieldStop, iff keep_unknown_fields",
+		"unknown-carrying":       "CarryingUnknownFields reports len(p._unknownFields) > 0 on the declared storage",
+	})
+	c.Min("unknown-read-arm", 1)
+	c.Min("unknown-write-position", 1)
+	c.Min("unknown-carrying", 1)
+}
+
+// relay copies the failures of selected rules of a sub-aggregate into one rule of the main aggregate.
+func relay(sub, agg *aggregate, rule, key string, from []string) {
+	agg.check(rule, key)
+	for _, f := range from {
+		for k, msgs := range sub.fails {
+			if strings.HasPrefix(k, f+"\x00") {
+				for _, m := range msgs {
+					agg.fail(rule, key, m)
+				}
+			}
+		}
+	}
+}
